@@ -124,8 +124,10 @@ def read_heartbeat(path):
     return dict(seq=seq, check=check, kind=kind, payload=payload)
 
 
-def run_replay(binary, path, hang_secs=None, limit=90):
-    """Returns 'reproduced', 'passed' or 'error'; hang/fatal count as reproduced."""
+def run_replay(binary, path, hang_secs=None, limit=90, only_hang=False):
+    """Returns 'reproduced', 'passed' or 'error'; hang/fatal count as reproduced.
+    only_hang: an ordinary mismatch does not count (used while shrinking a hang or a crash: the shrunk
+    text no longer has the expectation of the original case)."""
     extra = {"VERIF_REPLAY": path, "VERIF_OUT": ""}
     if hang_secs:
         extra["VERIF_HANG_SECS"] = hang_secs
@@ -138,6 +140,10 @@ def run_replay(binary, path, hang_secs=None, limit=90):
     if "REPLAY-ERROR" in out:
         return "error", out[-2000:]
     if "REPLAY-PASSED" in out and p.returncode == 0:
+        return "passed", ""
+    if only_hang:
+        if p.returncode == 3 or "fatal error:" in out or p.returncode < 0 or "WARNING: DATA RACE" in out or ("REPLAY-REPRODUCED" in out and ": panic:" in out):
+            return "reproduced", out[-2000:]
         return "passed", ""
     if p.returncode == 3 or "REPLAY-REPRODUCED" in out or "fatal error:" in out or p.returncode != 0:
         return "reproduced", out[-2000:]
@@ -166,7 +172,7 @@ def minimise(binary, replay_path, budget=90):
         c = dict(rf)
         c["case"] = s if key is None else dict(rf["case"], **{key: s})
         json.dump(c, open(tmp, "w"))
-        st, _ = run_replay(binary, tmp, hang_secs="2", limit=20)
+        st, _ = run_replay(binary, tmp, hang_secs="2", limit=20, only_hang=True)
         return st == "reproduced"
 
     data = src.encode("utf-8", "surrogateescape")
